@@ -8,6 +8,7 @@ files stay Mathlib-free).  `reach E a` is a fuel-free worklist search (terminate
 -/
 set_option linter.unusedSectionVars false
 
+set_option linter.unusedSimpArgs false
 namespace CG.EL
 variable {α : Type} [DecidableEq α]
 
